@@ -4,7 +4,7 @@ From Coq Require Import List Arith Bool.
 From M Require Import Base Flat FlatSpec.
 From P Require Import FlatP FlatOrder FlatCrash.
 From M Require Hsm.
-From P Require CrashGen HsmCrash.
+From P Require CrashGen HsmCrash HsmReach HsmTotal.
 Import ListNotations.
 
 (* single_raise ev k e : the callback invoked at position k raises e (an Exception or a
@@ -100,3 +100,16 @@ Theorem C04_hsm_crash_finalize :
     Hsm.trigger_event hm ev c ev_id p f = (b ++ firstn (k - (p + length b) + 1) fin, st', inr res).
 Proof. exact HsmCrash.hsm_crash_finalize. Qed.
 Print Assumptions C04_hsm_crash_finalize.
+
+(* "the machine is fully usable afterwards": whatever any callback raises at whatever position (no hypothesis on
+   the environment), the configuration a hierarchical trigger leaves behind is good - unique sibling names, only
+   registered states - so it is a configuration from which C03_no_internal_error / C03_history_no_internal_error
+   (Props/C03.v) apply again: the continuation can only return booleans or raise the invalid-trigger error (or what
+   its own callbacks raise).  The model has no other state than the configuration; that the implementation has
+   none either (scope stack, prefix of state names) is what the survivor streams of the harness check. *)
+Theorem C04_hsm_survivor_good :
+  forall (hm : Hsm.hmachine) (ev : env) (c : ctx) (e : event) (p : nat) (f : Hsm.forest) tr f' r,
+    HsmReach.wf_defs hm = true -> HsmTotal.good hm f ->
+    Hsm.trigger_event hm ev c e p f = (tr, f', r) -> HsmTotal.good hm f'.
+Proof. exact HsmTotal.any_env_good. Qed.
+Print Assumptions C04_hsm_survivor_good.
